@@ -836,6 +836,20 @@ func (e *Env) evalCall(n *ECall) Val {
 			return boolVal(pc)
 		}
 		return boolVal("false")
+	case "atloop":
+		// atloop(N, e): e evaluated in the state in which loop N was entered (before its first iteration)
+		if len(n.Args) != 2 {
+			sfail("atloop(N, e)")
+		}
+		kn, ok := n.Args[0].(*EInt)
+		if !ok {
+			sfail("atloop: N must be a literal")
+		}
+		ls := vc.loopEntry[int(kn.V.Int64())]
+		if ls == nil {
+			sfail("atloop: loop %d has not been entered at this point", kn.V.Int64())
+		}
+		return e.inState(ls).eval(n.Args[1])
 	case "nocall":
 		// nocall(name): the function contains no call named `name` at all (a static fact)
 		if len(n.Args) != 1 || vc.fn == nil || vc.callByName == nil {
